@@ -67,7 +67,7 @@ def judge(d, nsubs, nwr, nwrites, nlate, shared):
             # pattern: a snapshot [a+b+..] (or a single value, or none), then per writer the values after its snapshot value, in order, to the end
             snap, rest = [], evs
             if evs and evs[0].startswith("["):
-                snap = evs[0][1:-1].split("+"); rest = evs[1:]
+                snap = [x for x in evs[0][1:-1].split("+") if x]; rest = evs[1:]      # `[]`: subscribed before the first write
             seen = {}
             for x in snap:
                 j, i = x.split("."); seen[int(j)] = int(i)
@@ -148,7 +148,7 @@ def run_storms(v, tier, seed, work, engine_tag, prop_note):
     write_cases(cpath, [(nm, ops) for nm, ops, _ in cases])
     impl, _model = run_engine("session", "session_driver", cpath, work, tag=f"-storm{engine_tag}")
     A = read_obs(impl)
-    serial, events, lates = [], 0, 0
+    serial, events, lates, mid = [], 0, 0, 0
     for nm, ops, (nsubs, nwr, nwrites, nlate, shared) in cases:
         la = A.get(nm, [])
         d = parse(la[1]) if len(la) > 1 else None
@@ -163,11 +163,15 @@ def run_storms(v, tier, seed, work, engine_tag, prop_note):
             if len(v.violations) >= 3: break
             continue
         events += nsubs * nwr * nwrites; lates += nlate
+        order0 = (d.get("S0") or ["A"])[1:]
+        for k in range(nlate):
+            ev = (d.get(f"L{k}") or ["A"])[1:]
+            if ev and ((len(ev) > 1 and ev[0].startswith("[") and ev[0] != "[]") or ev[0] in order0[:-1]): mid += 1
         serial.append((nm, serial_case(d, nsubs, nwr, nwrites, shared), d, nsubs))
     if serial and not v.violations:
         for nm, msg in replay_in_model(engine_tag, serial, work)[:2]:
             ops = next(o for n_, o, _ in cases if n_ == nm)
             v.violation({"what": "concurrent traffic: " + msg, "case": nm, "engine": "session", "driver": "session_driver", "ops": ops,
                          "broken_obligation": "correspondence session (storm replayed serially; Proofs/ConcFacts.v conc_core, conc_stream)"}, no_input=True)
-    return {"cases": len(cases), "events_checked": events, "late_subscribers": lates,
+    return {"cases": len(cases), "events_checked": events, "late_subscribers": lates, "late_subscribers_that_joined_mid_traffic": mid,
             "rule": "every connection a task of its own on the multi-threaded runtime of a real in-process server: 1..4 live subscribers acknowledged first, 2..6 writers released at a barrier each PIPELINING 20..200 sets (one shared key, or a key per writer under one pattern), 0..2 subscribers with snapshot joining in the middle; judged by the schedule-independent facts proved in Proofs/ConcFacts.v for every schedule (answers in request order, Ack first, every subscriber the same sequence = every writer's values in order, each once; a late subscriber: state at that moment, then exactly the rest; final state = last write per key) and replayed serially, in the order the subscribers saw, through the extracted session model (its deliveries per subscriber must be what that subscriber received). " + prop_note}
